@@ -22,7 +22,7 @@ RULE = ("generated library class + 2 clients x import style x field usage shapes
         "options, import styles, usage shapes present, outcome)")
 ASSUMPTIONS = ["receivers are statically determined (instance assigned once from the class in the same scope)",
                "field values are ints; generated expressions are pure"]
-BUDGET = {"quick": (3500, 70), "thorough": (80000, 900)}
+BUDGET = {"quick": (2500, 200), "thorough": (80000, 900)}
 EXHAUSTIVE = {}
 CASE_TIMEOUT = 300
 REQUIRE = {"performed_and_run": 300}
@@ -57,9 +57,18 @@ def gen_project(rnd):
     if sub:
         lib += ["class Sub(Acc):", "    def bump(self):", "        self.total += 10", "        return self.total", ""]
         shapes.add("subclass-augmented-write")
-    lib += ["def compute(a, b):", "    s = a * 2", "    t = s + b", "    if t > 50:", "        t = t - s", "    return t + s", "",
-            "def double_plus(a, b):", "    return a * 2 + b", "",
+    # module-level code that uses the definitions while the module is being imported, placed right after them
+    at_import = rnd.random() < 0.5
+    if at_import:
+        lib += ["_SCALED_AT_IMPORT = Acc(2).scale(3)", "_ADDED_AT_IMPORT = Acc(1, step=2).add(4)", ""]
+        shapes.add("used-at-import-time")
+    lib += ["def compute(a, b):", "    s = a * 2", "    t = s + b", "    if t > 50:", "        t = t - s", "    return t + s", ""]
+    if at_import:
+        lib += ["_COMPUTED_AT_IMPORT = compute(3, 4)", ""]
+    lib += ["def double_plus(a, b):", "    return a * 2 + b", "",
             "def helper(v):", "    w = v * 2 + 1", "    return w", ""]
+    if at_import:
+        lib += ["print('lib at import', _SCALED_AT_IMPORT, _ADDED_AT_IMPORT, _COMPUTED_AT_IMPORT, helper(2))", ""]
     files = {"lib.py": "\n".join(lib) + "\n"}
     styles = []
     for ci, cname in enumerate(["client_a.py", "client_b.py"]):
